@@ -221,6 +221,26 @@ def ops11 : List (String × Op) := [
     let K ← field j "model" >>= decKt scF
     let r := logLik fops X K
     .ok (Json.mkObj [("model", encKt scF r.1), ("obj", fenc r.2)])),
+  -- one generated scalar formula at Float (cross-check of the translator's reading, family `formulas`): the
+  -- services are the ones the model hands to the generated definitions (`fops`)
+  ("c11_formula", fun j => do
+    let name ← field j "name" >>= asStr
+    let a ← field j "args" >>= fvec
+    let x := fun (i : Nat) => a.getD i 0.0
+    let r ← match name with
+      | "llTermSparse" => pure (Gen.llTermSparse fops.log (x 0) (x 1))
+      | "llTermDense" => pure (Gen.llTermDense fops.log fops.isZero (x 0) (x 1))
+      | "llCombine" => pure (Gen.llCombine (x 0) (x 1))
+      | "kktEntry" => pure (Gen.kktEntry fops.abs fops.minimum (x 0) (x 1))
+      | "muUpdate" => pure (Gen.muUpdate (x 0) (x 1))
+      | "rowKktEntry" => pure (Gen.rowKktEntry fops.abs fops.minimum (x 0) (x 1))
+      | "rowGrad" => pure (Gen.rowGrad (x 0))
+      | "lsTrial" => pure (Gen.lsTrial (x 0) (x 1) (x 2))
+      | "project" => pure (Gen.project fops.gt0 (x 0))
+      | "lsFallback" => pure (Gen.lsFallback (x 0) (x 1))
+      | "armijoBound" => pure (Gen.armijoBound (x 0) (x 1) (x 2))
+      | _ => .error s!"bad formula {name}"
+    .ok (Json.mkObj [("float", fenc r)])),
   -- the literals read from the source
   ("c11_consts", fun _ =>
     .ok (Json.mkObj [("minDescentTol", fenc fconsts.minDescentTol), ("smallStepTol", fenc fconsts.smallStepTol),
